@@ -181,6 +181,7 @@ package dastard
 
 //@ func (*DataPublisher).SetOFF
 //@   props C06 C05
+//@   requires Projectors != nil && Basis != nil
 //@   ensures handle: dp.OFF != nil && fresh(dp.OFF) && !dp.WritingPaused && dp.numberWritten == 0
 //@   modifies dp.OFF, dp.WritingPaused, dp.numberWritten
 
@@ -189,7 +190,7 @@ package dastard
 // ---------------------------------------------------------------------------------------------
 
 // InvW: what clients are told (ds.writingState) agrees with what every channel does.
-//@ pred ProcsOK(ds *AnySource) := (forall p int :: {at(ds.processors, p)} ds.processors.off <= p && p < ds.processors.off + len(ds.processors) ==> at(ds.processors, p) != nil && allocated(at(ds.processors, p)))
+//@ pred ProcsOK(ds *AnySource) := (forall p int :: {at(ds.processors, p)} ds.processors.off <= p && p < ds.processors.off + len(ds.processors) ==> at(ds.processors, p) != nil && allocated(at(ds.processors, p)) && at(ds.processors, p).basis != nil)
 //@     && (forall p int, q int :: {at(ds.processors, p), at(ds.processors, q)} ds.processors.off <= p && p < q && q < ds.processors.off + len(ds.processors) ==> at(ds.processors, p) != at(ds.processors, q))
 //@ pred InvW(ds *AnySource) := ProcsOK(ds) && allocated(ds.processors)
 //@     && (forall p int :: {at(ds.processors, p)} ds.processors.off <= p && p < ds.processors.off + len(ds.processors) ==>
@@ -353,6 +354,8 @@ package dastard
 //@ pred Rec22Samples(W *asyncbufio.Writer, j int, r *DataRecord) := forall i int :: {W.acc[i]} W.mark[j] + 16 <= i && i < W.mark[j] + 16 + 2 * len(r.data) ==> W.acc[i] == lebyte(at(r.data, r.data.off + (i - W.mark[j] - 16) / 2), (i - W.mark[j] - 16) % 2)
 
 //@ pred RecsReadable(rs []*DataRecord) := allocated(rs) && (forall p int :: {at(rs, p)} rs.off <= p && p < rs.off + len(rs) ==> at(rs, p) != nil && allocated(at(rs, p)) && allocated(at(rs, p).data) && allocated(at(rs, p).modelCoefs) && len(at(rs, p).data) < 1073741824)
+// Lens22: every record has the LJH 2.2 file's fixed record length (otherwise WriteRecord rejects it and PublishData drops it).
+//@ pred Lens22(dp *DataPublisher, rs []*DataRecord) := forall p int :: {at(rs, p)} rs.off <= p && p < rs.off + len(rs) ==> len(at(rs, p).data) == dp.LJH22.Samples
 //@ pred W22OK(w *ljh.Writer) := w != nil ==> allocated(w) && (w.HeaderWritten ==> w.writer != nil && allocated(w.writer) && WInv(w.writer)) && (!w.HeaderWritten ==> w.file == nil)
 //@ pred W3OK(w *ljh.Writer3) := w != nil ==> allocated(w) && (w.HeaderWritten ==> w.writer != nil && allocated(w.writer) && WInv(w.writer)) && (!w.HeaderWritten ==> w.file == nil)
 //@ pred WOFFOK(w *off.Writer) := w != nil ==> allocated(w) && (w.headerWritten ==> w.writer != nil && allocated(w.writer) && WInv(w.writer)) && (!w.headerWritten ==> w.file == nil)
@@ -364,20 +367,20 @@ package dastard
 //@   requires distinct: (dp.LJH22 != nil && dp.LJH3 != nil && dp.LJH22.HeaderWritten && dp.LJH3.HeaderWritten ==> dp.LJH22.writer != dp.LJH3.writer)
 //@        && (dp.LJH22 != nil && dp.OFF != nil && dp.LJH22.HeaderWritten && dp.OFF.headerWritten ==> dp.LJH22.writer != dp.OFF.writer)
 //@        && (dp.LJH3 != nil && dp.OFF != nil && dp.LJH3.HeaderWritten && dp.OFF.headerWritten ==> dp.LJH3.writer != dp.OFF.writer)
-//@   requires lens: dp.LJH22 != nil ==> (forall p int :: {at(records, p)} records.off <= p && p < records.off + len(records) ==> len(at(records, p).data) == dp.LJH22.Samples)
 //@   ensures inv: W22OK(dp.LJH22) && W3OK(dp.LJH3) && WOFFOK(dp.OFF) && unchanged(dp.LJH22, dp.LJH3, dp.OFF, dp.WritingPaused)
 //@   ensures gate: len(records) == 0 || dp.WritingPaused || (dp.LJH22 == nil && dp.LJH3 == nil && dp.OFF == nil) ==> result == nil && unchanged(dp.numberWritten)
 //@        && (dp.LJH22 != nil ==> unchanged(dp.LJH22.HeaderWritten, dp.LJH22.writer, dp.LJH22.RecordsWritten) && (dp.LJH22.writer != nil ==> unchanged(dp.LJH22.writer.n, dp.LJH22.writer.items)))
 //@        && (dp.LJH3 != nil ==> unchanged(dp.LJH3.HeaderWritten, dp.LJH3.writer, dp.LJH3.RecordsWritten) && (dp.LJH3.writer != nil ==> unchanged(dp.LJH3.writer.n, dp.LJH3.writer.items)))
 //@        && (dp.OFF != nil ==> unchanged(dp.OFF.headerWritten, dp.OFF.writer, dp.OFF.recordsWritten) && (dp.OFF.writer != nil ==> unchanged(dp.OFF.writer.n, dp.OFF.writer.items)))
-//@   ensures stored22: len(records) > 0 && !dp.WritingPaused && dp.LJH22 != nil && (result == nil || dp.OFF != nil) ==> dp.LJH22.HeaderWritten && dp.LJH22.writer != nil
+//@   ensures stored22: len(records) > 0 && !dp.WritingPaused && dp.LJH22 != nil && Lens22(dp, records) ==> dp.LJH22.HeaderWritten && dp.LJH22.writer != nil
 //@        && dp.LJH22.writer.items == ite(old(dp.LJH22.HeaderWritten), old(dp.LJH22.writer.items), 1) + len(records)
 //@        && dp.LJH22.RecordsWritten == old(dp.LJH22.RecordsWritten) + len(records)
-//@   ensures len22: forall j int :: {dp.LJH22.writer.mark[j]} len(records) > 0 && !dp.WritingPaused && dp.LJH22 != nil && (result == nil || dp.OFF != nil) && dp.LJH22.writer.items - len(records) <= j && j < dp.LJH22.writer.items ==> Rec22Len(dp.LJH22.writer, j, at(records, records.off + j - (dp.LJH22.writer.items - len(records))))
-//@   ensures count22: forall j int :: {dp.LJH22.writer.mark[j]} len(records) > 0 && !dp.WritingPaused && dp.LJH22 != nil && (result == nil || dp.OFF != nil) && dp.LJH22.writer.items - len(records) <= j && j < dp.LJH22.writer.items ==> Rec22Count(dp.LJH22.writer, j, at(records, records.off + j - (dp.LJH22.writer.items - len(records))), dp.LJH22.SubframeDivisions, dp.LJH22.SubframeOffset)
-//@   ensures stamp22: forall j int :: {dp.LJH22.writer.mark[j]} len(records) > 0 && !dp.WritingPaused && dp.LJH22 != nil && (result == nil || dp.OFF != nil) && dp.LJH22.writer.items - len(records) <= j && j < dp.LJH22.writer.items ==> Rec22Stamp(dp.LJH22.writer, j, at(records, records.off + j - (dp.LJH22.writer.items - len(records))))
-//@   ensures samples22: forall j int :: {dp.LJH22.writer.mark[j]} len(records) > 0 && !dp.WritingPaused && dp.LJH22 != nil && (result == nil || dp.OFF != nil) && dp.LJH22.writer.items - len(records) <= j && j < dp.LJH22.writer.items ==> Rec22Samples(dp.LJH22.writer, j, at(records, records.off + j - (dp.LJH22.writer.items - len(records))))
+//@   ensures len22: forall j int :: {dp.LJH22.writer.mark[j]} len(records) > 0 && !dp.WritingPaused && dp.LJH22 != nil && Lens22(dp, records) && dp.LJH22.writer.items - len(records) <= j && j < dp.LJH22.writer.items ==> Rec22Len(dp.LJH22.writer, j, at(records, records.off + j - (dp.LJH22.writer.items - len(records))))
+//@   ensures count22: forall j int :: {dp.LJH22.writer.mark[j]} len(records) > 0 && !dp.WritingPaused && dp.LJH22 != nil && Lens22(dp, records) && dp.LJH22.writer.items - len(records) <= j && j < dp.LJH22.writer.items ==> Rec22Count(dp.LJH22.writer, j, at(records, records.off + j - (dp.LJH22.writer.items - len(records))), dp.LJH22.SubframeDivisions, dp.LJH22.SubframeOffset)
+//@   ensures stamp22: forall j int :: {dp.LJH22.writer.mark[j]} len(records) > 0 && !dp.WritingPaused && dp.LJH22 != nil && Lens22(dp, records) && dp.LJH22.writer.items - len(records) <= j && j < dp.LJH22.writer.items ==> Rec22Stamp(dp.LJH22.writer, j, at(records, records.off + j - (dp.LJH22.writer.items - len(records))))
+//@   ensures samples22: forall j int :: {dp.LJH22.writer.mark[j]} len(records) > 0 && !dp.WritingPaused && dp.LJH22 != nil && Lens22(dp, records) && dp.LJH22.writer.items - len(records) <= j && j < dp.LJH22.writer.items ==> Rec22Samples(dp.LJH22.writer, j, at(records, records.off + j - (dp.LJH22.writer.items - len(records))))
 //@   ensures kept22: old(dp.LJH22) != nil && old(dp.LJH22.HeaderWritten) ==> dp.LJH22.writer == old(dp.LJH22.writer) && (forall i int :: {dp.LJH22.writer.acc[i]} i < old(dp.LJH22.writer.n) ==> dp.LJH22.writer.acc[i] == old(dp.LJH22.writer.acc[i]))
+//@   ensures noerr: (dp.OFF == nil || dp.WritingPaused || (forall p int :: {at(records, p)} records.off <= p && p < records.off + len(records) ==> len(at(records, p).modelCoefs) == dp.OFF.NumberOfBases)) ==> result == nil
 //@   ensures counted: len(records) > 0 && !dp.WritingPaused && (dp.LJH22 != nil || dp.LJH3 != nil || dp.OFF != nil) && result == nil ==> dp.numberWritten == old(dp.numberWritten) + len(records)
 //@   modifies dp.numberWritten, any(ljh.Writer).HeaderWritten, any(ljh.Writer).file, any(ljh.Writer).writer, any(ljh.Writer).RecordsWritten,
 //@            any(ljh.Writer3).HeaderWritten, any(ljh.Writer3).file, any(ljh.Writer3).writer, any(ljh.Writer3).RecordsWritten,
@@ -391,12 +394,11 @@ package dastard
 //@          && (dp.LJH3 != nil ==> unchanged(dp.LJH3.HeaderWritten, dp.LJH3.writer, dp.LJH3.file, dp.LJH3.RecordsWritten) && (dp.LJH3.HeaderWritten ==> dp.LJH3.writer != dp.LJH22.writer && unchanged(dp.LJH3.writer.items, dp.LJH3.writer.n)))
 //@          && (dp.OFF != nil ==> unchanged(dp.OFF.headerWritten, dp.OFF.writer, dp.OFF.file, dp.OFF.recordsWritten) && (dp.OFF.headerWritten ==> dp.OFF.writer != dp.LJH22.writer && unchanged(dp.OFF.writer.items, dp.OFF.writer.n)))
 //@          && (dp.LJH3 != nil && dp.OFF != nil && dp.LJH3.HeaderWritten && dp.OFF.headerWritten ==> dp.LJH3.writer != dp.OFF.writer)
-//@     invariant count: dp.LJH22.writer.items == ite(old(dp.LJH22.HeaderWritten), old(dp.LJH22.writer.items), 1) + rangeindex + 1 && dp.LJH22.RecordsWritten == old(dp.LJH22.RecordsWritten) + rangeindex + 1
-//@     invariant len22: forall j int :: {dp.LJH22.writer.mark[j]} dp.LJH22.writer.items - (rangeindex + 1) <= j && j < dp.LJH22.writer.items ==> Rec22Len(dp.LJH22.writer, j, at(records, records.off + j - (dp.LJH22.writer.items - (rangeindex + 1))))
-//@     invariant count22: forall j int :: {dp.LJH22.writer.mark[j]} dp.LJH22.writer.items - (rangeindex + 1) <= j && j < dp.LJH22.writer.items ==> Rec22Count(dp.LJH22.writer, j, at(records, records.off + j - (dp.LJH22.writer.items - (rangeindex + 1))), dp.LJH22.SubframeDivisions, dp.LJH22.SubframeOffset)
-//@     invariant stamp22: forall j int :: {dp.LJH22.writer.mark[j]} dp.LJH22.writer.items - (rangeindex + 1) <= j && j < dp.LJH22.writer.items ==> Rec22Stamp(dp.LJH22.writer, j, at(records, records.off + j - (dp.LJH22.writer.items - (rangeindex + 1))))
-//@     invariant samples22: forall j int :: {dp.LJH22.writer.mark[j]} dp.LJH22.writer.items - (rangeindex + 1) <= j && j < dp.LJH22.writer.items ==> Rec22Samples(dp.LJH22.writer, j, at(records, records.off + j - (dp.LJH22.writer.items - (rangeindex + 1))))
-//@     invariant lens: forall p int :: {at(records, p)} records.off <= p && p < records.off + len(records) ==> len(at(records, p).data) == dp.LJH22.Samples
+//@     invariant count: Lens22(dp, records) ==> dp.LJH22.writer.items == ite(old(dp.LJH22.HeaderWritten), old(dp.LJH22.writer.items), 1) + rangeindex + 1 && dp.LJH22.RecordsWritten == old(dp.LJH22.RecordsWritten) + rangeindex + 1
+//@     invariant len22: forall j int :: {dp.LJH22.writer.mark[j]} Lens22(dp, records) && dp.LJH22.writer.items - (rangeindex + 1) <= j && j < dp.LJH22.writer.items ==> Rec22Len(dp.LJH22.writer, j, at(records, records.off + j - (dp.LJH22.writer.items - (rangeindex + 1))))
+//@     invariant count22: forall j int :: {dp.LJH22.writer.mark[j]} Lens22(dp, records) && dp.LJH22.writer.items - (rangeindex + 1) <= j && j < dp.LJH22.writer.items ==> Rec22Count(dp.LJH22.writer, j, at(records, records.off + j - (dp.LJH22.writer.items - (rangeindex + 1))), dp.LJH22.SubframeDivisions, dp.LJH22.SubframeOffset)
+//@     invariant stamp22: forall j int :: {dp.LJH22.writer.mark[j]} Lens22(dp, records) && dp.LJH22.writer.items - (rangeindex + 1) <= j && j < dp.LJH22.writer.items ==> Rec22Stamp(dp.LJH22.writer, j, at(records, records.off + j - (dp.LJH22.writer.items - (rangeindex + 1))))
+//@     invariant samples22: forall j int :: {dp.LJH22.writer.mark[j]} Lens22(dp, records) && dp.LJH22.writer.items - (rangeindex + 1) <= j && j < dp.LJH22.writer.items ==> Rec22Samples(dp.LJH22.writer, j, at(records, records.off + j - (dp.LJH22.writer.items - (rangeindex + 1))))
 //@   loop 2
 //@     invariant -1 <= rangeindex && rangeindex <= len(records) - 1 && RecsReadable(records) && unchanged(dp.LJH22, dp.LJH3, dp.OFF, dp.WritingPaused, dp.numberWritten)
 //@     invariant w: dp.LJH3 != nil && allocated(dp.LJH3) && dp.LJH3.HeaderWritten && dp.LJH3.writer != nil && allocated(dp.LJH3.writer) && WInv(dp.LJH3.writer)
